@@ -155,6 +155,7 @@ func upcastDomain(lines []string) []string {
 	bus := eb.New(eb.WithStore(store))
 	var out []string
 	var calls, errCalls [][2]string
+	var pendingClears []chan struct{}
 	for _, line := range lines {
 		f := strings.Fields(line)
 		switch {
@@ -185,6 +186,18 @@ func upcastDomain(lines []string) []string {
 					_ = json.Unmarshal(data, &pl)
 					l := pl.Tags
 					calls = append(calls, [2]string{fmt.Sprint(tag), showNatList(l)})
+					if tag >= 200 {
+						// a registry change racing with the chain this step belongs to: ClearUpcasts from another
+						// goroutine, given 20 ms to get through before the step returns (it must not: the chain is
+						// applied against one registry state; the clear takes effect once the event is done)
+						cl := make(chan struct{})
+						go func() { bus.ClearUpcasts(); close(cl) }()
+						select {
+						case <-cl:
+						case <-time.After(20 * time.Millisecond):
+						}
+						pendingClears = append(pendingClears, cl)
+					}
 					if fails {
 						return nil, "", errors.New("boom")
 					}
@@ -223,6 +236,15 @@ func upcastDomain(lines []string) []string {
 				out = append(out, "!HANG apply does not terminate")
 				return out
 			}
+			for _, cl := range pendingClears {
+				select {
+				case <-cl:
+				case <-time.After(3 * time.Second):
+					out = append(out, "!HANG ClearUpcasts does not return after the replay")
+					return out
+				}
+			}
+			pendingClears = nil
 			out = append(out, fmt.Sprintf("seen off=%s ts=%d ty=%d data=%s opt=%d calls=%s errh=%s",
 				strings.TrimPrefix(string(seen.Offset), "o"), seen.Timestamp.UnixNano(), tyCode(seen.Type), dataToList(seen.Data), dataOpt(seen.Data), showCalls(calls), showCalls(errCalls)))
 		case f[0] == "racereg" && len(f) == 2:
